@@ -28,7 +28,7 @@ REQUIRE = {'writes_DFXPWriter': 100, 'writes_SinglePositioningDFXPWriter': 50, '
            'outputs_parsed': 300, 'meta_in_attribute_value': 50, 'sets_from_readers': 50,
            'inline_positioning_writes': 20, 'force_writes': 20, 'regions_defined': 100,
            'lxml_also_checked': 50, 'unused_regions_possible': 10,
-           'sets_from_styled_documents': 50}
+           'sets_from_styled_documents': 50, 'suite_dfxp_outputs_parsed': 20}
 DFXP_WRITERS = ['DFXPWriter', 'SinglePositioningDFXPWriter', 'LegacyDFXPWriter']
 NCNAME = re.compile(r'^[A-Za-z_][\w.\-]*$')
 
@@ -49,6 +49,8 @@ def gen_opts(rng, writer):
 
 def cases(ctx):
     rng = ctx.rng('c07')
+    if ctx.shard == 0:
+        yield {'kind': 'suite', 'writer': None, 'opts': {}, 'force': '', 'src': {'kind': 'suite'}}
     for i in range(ctx.budget(5000, 150000)):
         writer = DFXP_WRITERS[i % 3] if rng.random() < 0.6 else 'DFXPWriter'
         r = rng.random()
@@ -88,7 +90,7 @@ def _build(case):
 
 def nontrivial(case):
     src = case['src']
-    if src['kind'] == 'reader':
+    if src['kind'] in ('reader', 'suite'):
         return True
     s = repr(src['set'])
     return any(ch in s for ch in '&<"') or s.count("'origin': [[") >= 2
@@ -97,6 +99,12 @@ def nontrivial(case):
 def check(case, ctx):
     from pycaption.exceptions import RelativizationError
     writer = case['writer']
+    if case.get('kind') == 'suite':
+        from vf import suite
+        data = suite.run_suite()
+        ctx.count('suite_dfxp_outputs_parsed', data['counts'].get('dfxp_output_parsed', 0))
+        return [{'what': v['violation'], 'test': v.get('test')} for v in data['violations']
+                if v.get('property') == 'C07'][:3]
     try:
         cs = _build(case)
     except Exception as e:
